@@ -350,6 +350,14 @@ func (gp *GenginePool) UpdatePooledRulesIncremental(ruleStr string) error {
 	}
 
 	//update main
+	if gp.clear || gp.ruleBuilder == nil {
+		//the pool has been cleared: there is nothing to merge into, start from an empty rule set
+		rbi := builder.NewRuleBuilder(context.NewDataContext())
+		for k, v := range gp.apis {
+			rbi.Dc.Add(k, v)
+		}
+		gp.ruleBuilder = rbi
+	}
 	updateIncremental(kci, gp.ruleBuilder)
 
 	//update instance
@@ -376,6 +384,11 @@ func (gp *GenginePool) ClearPoolRules() {
 func (gp *GenginePool) RemoveRules(ruleNames []string) error {
 	gp.updateLock.Lock()
 	defer gp.updateLock.Unlock()
+
+	if gp.clear || gp.ruleBuilder == nil {
+		//the pool has been cleared: no rule is left to remove
+		return nil
+	}
 
 	e := gp.ruleBuilder.RemoveRules(ruleNames)
 	if e != nil {
